@@ -528,35 +528,36 @@ int32_t jls_wr_fsr_data(struct jls_core_fsr_s * self, int64_t sample_id, const v
         if (sample_size_bits >= 8) {
             data = data_u8 + ffwd * (sample_size_bits / 8);
         } else {
-            uint32_t shift = 0;
-            uint32_t shift_samples = 0;
-            if (sample_size_bits == 4) {
-                shift = (ffwd & 1) ? 4 : 0;
-                shift_samples = 1;
-            } else if (sample_size_bits == 1) {
-                shift = ffwd % sample_size_bits;
-                shift_samples = shift;
-            }
+            // skip whole bytes, then bring the first partial byte into alignment
+            uint64_t bit_offset = ((uint64_t) ffwd) * sample_size_bits;
+            data_u8 += bit_offset / 8;
+            uint32_t shift = (uint32_t) (bit_offset % 8);
             if (shift == 0) {
-                data = data_u8 + ffwd * (sample_size_bits / 8);
+                data = data_u8;
             } else {
-                while (data_u8 < data_end_u8) {
-                    size_t sz = data_end_u8 - data_u8;
-                    if (sz > (sizeof(self->buffer_u64) - 8)) {
-                        sz = sizeof(self->buffer_u64) - 8;
-                    }
-                    memcpy(self->buffer_u64, data_u8, sz);
-                    self->buffer_u64[(sz / 8) + 1] = 0;
-                    size_t sz_words = (sz + 7) / 8;
-                    for (uint64_t idx = 0; idx < sz_words; ++idx) {
-                        self->buffer_u64[idx] = (self->buffer_u64[idx] >> shift)
-                                | (self->buffer_u64[idx + 1] << (64 - shift));
-                    }
-                    size_t entries = sz * (8 / sample_size_bits) - shift_samples;
-                    ROE(wr_data_inner(self, self->buffer_u64, (uint32_t) entries));
-                    data_u8 += sz - 1;
+                // the first block is shifted into buffer_u64; whatever follows it starts on a byte boundary
+                size_t sz = data_end_u8 - data_u8;
+                if (sz > (sizeof(self->buffer_u64) - 8)) {
+                    sz = sizeof(self->buffer_u64) - 8;
                 }
-                return 0;
+                self->buffer_u64[sz / 8] = 0;
+                self->buffer_u64[(sz / 8) + 1] = 0;
+                memcpy(self->buffer_u64, data_u8, sz);
+                size_t sz_words = (sz + 7) / 8;
+                for (uint64_t idx = 0; idx < sz_words; ++idx) {
+                    self->buffer_u64[idx] = (self->buffer_u64[idx] >> shift)
+                            | (self->buffer_u64[idx + 1] << (64 - shift));
+                }
+                uint32_t entries = (uint32_t) ((sz * 8 - shift) / sample_size_bits);
+                if (entries > data_length) {
+                    entries = data_length;
+                }
+                ROE(wr_data_inner(self, self->buffer_u64, entries));
+                data_length -= entries;
+                if (0 == data_length) {
+                    return 0;
+                }
+                data = data_u8 + sz;
             }
         }
     } else {
